@@ -48,6 +48,13 @@ pub enum Case {
     NackWire { pid: u16, blp: u16 },
     NackSet { seqs: Vec<u16> },
     NackGap { last: u16, seq: u16 },
+    // ---- thorough-tier deep blocks (added later; earlier replay files stay valid)
+    /// RTX wrap/unwrap with explicit primary and RTX payload types
+    RtxPt { seq: u16, pt: u8, rtx_pt: u8, marker: bool },
+    /// hand-built generic NACK with several FCI (pid, blp) entries
+    NackWireN { pairs: Vec<(u16, u16)> },
+    /// canonical image of `specs` with one structural mutation applied to packet `which`
+    WireMut { specs: Vec<rtcpx::Spec>, which: usize, m: rtcpx::Mutn },
 }
 
 impl Case {
@@ -63,6 +70,9 @@ impl Case {
             Case::NackWire { .. } => "nack_wire",
             Case::NackSet { .. } => "nack_set",
             Case::NackGap { .. } => "nack_gap",
+            Case::RtxPt { .. } => "rtx",
+            Case::NackWireN { .. } => "nack_wire",
+            Case::WireMut { .. } => "rtcp_wire_mutation",
         }
     }
 }
@@ -81,6 +91,9 @@ pub fn run_case(c: &Case) -> Out {
         Case::NackWire { pid, blp } => nackx::check_nack_wire(*pid, *blp),
         Case::NackSet { seqs } => nackx::check_nack_set(seqs),
         Case::NackGap { last, seq } => nackx::check_nack_gap(*last, *seq),
+        Case::RtxPt { seq, pt, rtx_pt, marker } => rtpx::check_rtx_pt(*seq, *pt, *rtx_pt, *marker),
+        Case::NackWireN { pairs } => nackx::check_nack_wire_n(pairs),
+        Case::WireMut { specs, which, m } => rtcpx::check_wire_mut(specs, *which, m),
     }));
     match r {
         Ok(o) => o,
